@@ -361,7 +361,7 @@ def obligations(tier):
     if not quick:
         mids += [[a, b] for a in NONRESET for b in NONRESET]
     for mid in mids:
-        out.append(Ob("mono/nondecreasing/" + "+".join(mid), h_nondecreasing, dict(mid=mid), budget=90 if quick else 240,
+        out.append(Ob("mono/nondecreasing/" + "+".join(mid), h_nondecreasing, dict(mid=mid), budget=90 if quick else 240, max_fail_keys=1,
                       covers=["done", "backward-jump"],
                       bounds=dict(bounds, steps="elapsed, %s, elapsed from any valid timer state" % mid)))
     K = 2 if quick else 3
